@@ -321,6 +321,7 @@ func runC06(tier string, seed uint64) {
 	for _, kind := range allKinds {
 		c06BackendRefusal("c06", kind)
 		c06CompleteOverlap(kind)
+		c06EmptyUploadID(kind)
 		mpSlowPart("c06", kind) // a part upload in flight while its upload is completed
 	}
 	nseq, length := 25, 30
@@ -617,6 +618,15 @@ func runC14(tier string, seed uint64) {
 				nontrivial(fmt.Sprint("uploads", i, pd, lim))
 			}
 		}
+		// when the last upload is gone (aborted, every second history; completed or aborted as the history
+		// had it, otherwise) the bucket has had uploads and lists none
+		if i%2 == 0 {
+			for _, u := range ups {
+				s.Abort(b, u.key, u.id)
+			}
+			s.ListUploads(b, "", "", "", "", -1)
+			s.ListUploads(b, "", "/", "", "", 1)
+		}
 		s.end()
 	}
 	// keys of one group that are not neighbours in key order (one of them begins with the delimiter, which
@@ -728,5 +738,35 @@ func c06CompleteOverlap(kind string) {
 		verdict(!hung && lp.Status == 404, fmt.Sprintf("%s: afterwards the upload id no longer exists (list-parts answers %d, hung=%v)", kind, lp.Status, hung))
 		nontrivial(kind + "|complete-overlapped-by-" + second)
 	}
+	s.end()
+}
+
+// c06EmptyUploadID: a multipart request that names no upload (an empty uploadId) is refused like one
+// that names an unknown upload; it is not a request for the object of that key
+func c06EmptyUploadID(kind string) {
+	s := newSess("c06", kind, SessOpts{})
+	emit("c06", "NOMODEL")
+	b := singleBucketName
+	if !isSingle(kind) {
+		s.MkBucket(b)
+	}
+	s.Put(b, "precious", []byte("the object"), []KV{{"X-Amz-Meta-Keep", "1"}})
+	for _, rq := range []Req{
+		{Method: "PUT", Path: "/" + b + "/precious?partNumber=1&uploadId=", Body: []byte("a part for no upload")},
+		{Method: "GET", Path: "/" + b + "/precious?uploadId="},
+		{Method: "POST", Path: "/" + b + "/precious?uploadId=", Body: []byte("<CompleteMultipartUpload></CompleteMultipartUpload>")},
+		{Method: "DELETE", Path: "/" + b + "/precious?uploadId="},
+		{Method: "DELETE", Path: "/" + b + "/precious?uploadId=&versionId="},
+	} {
+		r := do(s.h, rq)
+		g := do(s.h, Req{Method: "GET", Path: "/" + b + "/precious"})
+		msg := fmt.Sprintf("%s: %s %s answers %d %s; the object then reads %d %q (metadata %s)", kind, rq.Method, rq.Path, r.Status, errCode(r.Body), g.Status, truncate(g.Body, 30), metaField(g.Header))
+		if r.Status >= 400 && g.Status == 200 && string(g.Body) == "the object" && g.Header.Get("X-Amz-Meta-Keep") == "1" && !(rq.Method == "GET" && string(r.Body) == "the object") {
+			emit("c06", "GOOD", hs(msg))
+		} else {
+			emit("c06", "BAD", hs("S:multipart-request-without-an-upload-touched-the-object "+msg))
+		}
+	}
+	nontrivial(kind + "|empty-upload-id")
 	s.end()
 }
